@@ -159,3 +159,19 @@ contract(f"{FS}::FileSystem.restore_folder", props=["C15"], bounded=2,
                   ("a_live_folder_of_that_name_is_the_one_restored", "implies(old(fs_has_live_folder(self, folder_name)), same_dict(self.folders) and same_dict(self.deleted_folders))"),
                   ("absent_refused", "implies(not old(fs_has_live_folder(self, folder_name)) and not old(fs_has_deleted_folder(self, folder_name)), result == False and unchanged())")],
          modifies=["heap"], allocates=True)
+
+# ---- reported state: "the reported state lists exactly the live and the deleted items" -----------------------------------------------------
+spec("as_dict(x)", "cast(x, 'Dict[str, Any]')")
+contract(f"{FO}::Folder.describe_state", props=["C15"],
+         ensures=[("lists_every_live_file", "forall(j, 0, len(self.files), dict_val(self.files, j).name in as_dict(result['files']))"),
+                  ("lists_every_deleted_file", "forall(j, 0, len(self.deleted_files), dict_val(self.deleted_files, j).name in as_dict(result['deleted_files']))"),
+                  ],
+         modifies=[], allocates=True)
+# the converse (nothing else is listed) nests an existential under the enumeration of the reported keys; neither solver decides it within
+# the budget in proof mode, so it is a bounded stand-in (at most 2 files in each map)
+contract(f"{FO}::Folder.describe_state#nothing_else", props=["C15"], bounded=2,
+         ensures=[("lists_every_live_file", "forall(j, 0, len(self.files), dict_val(self.files, j).name in as_dict(result['files']))"),
+                  ("lists_every_deleted_file", "forall(j, 0, len(self.deleted_files), dict_val(self.deleted_files, j).name in as_dict(result['deleted_files']))"),
+                  ("lists_only_live_files", "forall(k, 0, len(as_dict(result['files'])), has_live_name(self, dict_key(as_dict(result['files']), k)))"),
+                  ("lists_only_deleted_files", "forall(k, 0, len(as_dict(result['deleted_files'])), has_deleted_name(self, dict_key(as_dict(result['deleted_files']), k)))")],
+         modifies=[], allocates=True)
